@@ -4,6 +4,8 @@ import Verif.Driver.ExecEnv
 import Verif.Lemmas.C06Regexp
 import Verif.Lemmas.JsonTree
 import Verif.Lemmas.JsonObjTree
+import Verif.Lemmas.C06Unpack
+import Verif.Lemmas.C06Writers2
 /-! # C06 — Parser stages expose exactly the fields of a line and never drop it
 
 Theorems over `LogQL.Stage.apply` for json / logfmt / regexp / pattern / unpack (tied to the code by the C06 correspondence).  The JSON and logfmt *readers* are reached through `Env` (`jsonObject`, `jsonExpr`, `logfmt`): statements are relative to what the reader returns for the line; the executable readers `Verif/Env/Json.lean`, `Logfmt.lean`, `JsonExpr.lean` are compared with go-faster/jx and go-logfmt by the correspondence.  The pattern stage is proved at byte level with no environment. -/
@@ -282,6 +284,35 @@ theorem C06_json_stage_exposes_tree_members (ts : Int) (seen : Seen) (a : LogQL.
   apply json_all_fields
   show Json.readObject false a.line = _
   rw [hl]; exact JsonObjTree.readObject_writeT_nocheck fs hw
+
+
+/-- **C06 (unpack)**: on a packed entry — an object of string members with valid label names and the
+original line under `_entry`, as promtail's `pack` writes it — the stage restores exactly those labels
+(overriding existing ones) and that line, and sets no error -/
+theorem C06_unpack_restores_packed_entry (ts : Int) (seen : Seen) (a : LogQL.Acc) (kvs : List (Bytes × Bytes))
+    (entry : Bytes)
+    (hk : ∀ kv ∈ kvs, KeyToLabel.isValidLabel true kv.1 = true ∧ kv.1 ≠ C06Unpack.entryKey)
+    (hok : Json.fieldsOK (C06Unpack.packed kvs entry) = true)
+    (hl : a.line = Json.writeObj (C06Unpack.packed kvs entry)) :
+    (Stage.apply ExecEnv.env ts Stage.unpack seen a).fst = some { line := entry, labels := setAll a.labels kvs } :=
+  C06Unpack.unpack_packed ts seen a kvs entry hk hok hl
+
+
+/-- **C06 (logfmt reader, the spellings programs write)**: every pair may be written quoted with escapes,
+bare (`k=v`), as a key alone (`k`) or as `k=`, pairs separated by any number of blanks or tabs: the
+reader returns exactly the pairs (a key alone and `k=` with the empty value), without error -/
+theorem C06_logfmt_read_write_all_spellings (ps : List Logfmt.Pair) (h : ∀ p ∈ ps, p.ok = true) :
+    Logfmt.read (Logfmt.write2 ps) = (ps.map (fun p => (p.key, p.val)), false) :=
+  C06Writers2.logfmt_read_write2 ps h
+
+/-- …and the stage exposes exactly those pairs -/
+theorem C06_logfmt_stage_exposes_pairs_all_spellings (ts : Int) (seen : Seen) (a : LogQL.Acc)
+    (ps : List Logfmt.Pair) (h : ∀ p ∈ ps, p.ok = true) (hl : a.line = Logfmt.write2 ps) :
+    (Stage.apply ExecEnv.env ts (Stage.logfmt [] []) seen a).fst =
+      some { a with labels := setAll a.labels (ps.map (fun p => (p.key, p.val))) } := by
+  apply logfmt_all_fields
+  show Logfmt.read a.line = _
+  rw [hl]; exact C06Writers2.logfmt_read_write2 ps h
 
 
 end LogQL.C06
